@@ -3,9 +3,11 @@ package ledger
 import (
 	"bytes"
 	"crypto/elliptic"
+	"errors"
 	"fmt"
 	"sort"
 
+	"github.com/nspcc-dev/neo-go/pkg/core"
 	"github.com/nspcc-dev/neo-go/pkg/core/block"
 	"github.com/nspcc-dev/neo-go/pkg/core/storage"
 	"github.com/nspcc-dev/neo-go/pkg/core/transaction"
@@ -406,7 +408,18 @@ func (r *run) runC06() {
 			prev = b
 			continue
 		}
-		if err := V.AddBlockBytes(r.raw[b.Index]); err != nil {
+		if r.tape.Chance(1, 6) {
+			// the correct block arrives from two sources at once: one of them applies it, the copy is refused and
+			// changes nothing
+			e1, e2 := r.addBlockFromTwoSources(V, r.raw[b.Index])
+			if r.fail != nil {
+				return
+			}
+			if !(e1 == nil && errors.Is(e2, core.ErrAlreadyExists)) && !(e2 == nil && errors.Is(e1, core.ErrAlreadyExists)) {
+				r.violate(sim.Violatef("duplicate-block-not-refused", "", "V was given valid block %d by two callers at once; they were answered %v and %v (expected: one applies it, the other is told it exists already)", b.Index, e1, e2))
+				return
+			}
+		} else if err := V.AddBlockBytes(r.raw[b.Index]); err != nil {
 			r.violate(sim.Violatef("valid-block-rejected-after-attack", "", "V rejected the correct block %d (after %d corrupted deliveries): %v", b.Index, len(byAt[bi]), err))
 			return
 		}
